@@ -234,47 +234,55 @@ def rule_progress(report, prog):
     t3 = prog.func('nfc.tag.tt3.Type3Tag.NDEF._read_ndef_data')
     cfg = cfg_of(t3)
     def _block_step(fn, attr):
-        """(loop, bound): the batching loop whose stride is attributes[attr] or a local bound once to it / min(it, K); bound = K."""
+        """(loop, bound, operands): the batching loop whose stride is attributes[attr] or a local bound once to it / to min(...) with
+        it among the arguments; bound = smallest constant argument of the min(), operands = texts of the non-constant arguments."""
         for l in walk_no_nested(fn.node):
             if not (isinstance(l, ast.For) and isinstance(l.iter, ast.Call) and norm(l.iter.func) == 'range' and len(l.iter.args) == 3):
                 continue
             st_ = l.iter.args[2]
-            if norm(st_) == "attributes['%s']" % attr:
-                return l, None
+            want = "attributes['%s']" % attr
+            if norm(st_) == want:
+                return l, None, [want]
             if isinstance(st_, ast.Name):
                 binds = [a for a in walk_no_nested(fn.node) if isinstance(a, ast.Assign) and any(norm(t) == st_.id for t in a.targets)]
-                if len(binds) == 1 and "attributes['%s']" % attr in norm(binds[0].value):
+                if len(binds) == 1 and want in norm(binds[0].value):
                     v = binds[0].value
-                    if isinstance(v, ast.Call) and norm(v.func) == 'min' and any(norm(a) == "attributes['%s']" % attr for a in v.args):
+                    if isinstance(v, ast.Call) and norm(v.func) == 'min' and any(norm(a) == want for a in v.args):
                         ks = [try_const(a) for a in v.args if isinstance(try_const(a), int)]
-                        return l, (min(ks) if ks else None)
-                    if norm(v) == "attributes['%s']" % attr:
-                        return l, None
-        return None, None
+                        return l, (min(ks) if ks else None), [norm(a) for a in v.args if not isinstance(try_const(a), int)]
+                    if norm(v) == want:
+                        return l, None, [want]
+        return None, None, []
     # one command moves at most 15 (read) / 13 (write) blocks -- the length octet of a frame is one byte; the count the tag
     # announces in its attribute block is cut to that before it sizes a command (else bytearray() raises ValueError)
     for fname, attr, limit in (('_read_ndef_data', 'nbr', 15), ('_write_ndef_data', 'nbw', 13)):
         fn = prog.func('nfc.tag.tt3.Type3Tag.NDEF.' + fname)
-        l_, bound = _block_step(fn, attr)
+        l_, bound, _ops = _block_step(fn, attr)
         n += 1
         report.check(l_ is not None and bound is not None and 1 <= bound <= limit, 'C08-R3',
                      key(fn.qname, 'blocks per command cut to what one frame can carry'), fn.loc(l_) if l_ is not None else fn.loc(),
                      'the number of blocks per command comes from the attribute block (%s) without an upper bound: %d and more blocks make the '
                      'command length octet overflow (ValueError out of tag.ndef)' % (attr, 121))
-    lp = [l for l in [_block_step(t3, 'nbr')[0]] if l is not None]
+    l3, b3, ops3 = _block_step(t3, 'nbr')
     n += 1
-    if lp:
-        node = [x for x in cfg.nodes if x.kind == 'stmt' and x.ast is lp[0].iter]
-        guards = [(t, lab) for e, t in cfg.test_nodes.items() for lab in ('true', 'false')
-                  if "attributes['nbr']" in norm(e) and isinstance(e, ast.Compare)
-                  and ((isinstance(e.ops[0], (ast.Gt, ast.NotEq)) and lab == 'true' and try_const(e.comparators[0]) == 0)
-                       or (isinstance(e.ops[0], (ast.Eq, ast.LtE, ast.Lt)) and lab == 'false' and try_const(e.comparators[0]) in (0, 1)))]
-        guards += [(t, 'false') for e, t in cfg.test_nodes.items() if norm(e) in ("attributes['nbr']",) and False]
-        guards += [(t, 'false') for e, t in cfg.test_nodes.items() if isinstance(e, ast.UnaryOp) is False and norm(e) == "attributes['nbr'] == 0"]
-        okk = bool(node) and bool(guards) and only_via(cfg, node[0], guards, ps=False)[0]
-        report.check(okk, 'C08-R3', key(t3.qname, 'block loop stride Nbr is tested to be positive'), t3.loc(lp[0]),
-                     'the block loop uses the tag supplied Nbr as range() step without testing it: an attribute block with Nbr = 0 (valid '
-                     'checksum) makes range() raise ValueError out of tag.ndef')
+    if l3 is not None:
+        node = [x for x in cfg.nodes if x.kind == 'stmt' and x.ast is l3.iter]
+        # the stride is positive: every tag supplied operand of it is tested (refusing `== 0` / `< 1`, or `> 0` passed) on all paths
+        # to the loop, and a constant operand is at least 1
+        problems = [] if (b3 is None or b3 >= 1) else ['constant stride bound %r' % b3]
+        for op_ in ops3:
+            guards = [(t, lab) for e, t in cfg.test_nodes.items() for lab in ('true', 'false')
+                      if isinstance(e, ast.Compare) and norm(e.left) == op_
+                      and ((isinstance(e.ops[0], (ast.Gt, ast.NotEq)) and lab == 'true' and try_const(e.comparators[0]) == 0)
+                           or (isinstance(e.ops[0], ast.GtE) and lab == 'true' and try_const(e.comparators[0]) == 1)
+                           or (isinstance(e.ops[0], ast.Eq) and lab == 'false' and try_const(e.comparators[0]) == 0)
+                           or (isinstance(e.ops[0], ast.Lt) and lab == 'false' and try_const(e.comparators[0]) == 1)
+                           or (isinstance(e.ops[0], ast.LtE) and lab == 'false' and try_const(e.comparators[0]) == 0))]
+            if not (node and guards and only_via(cfg, node[0], guards, ps=False)[0]):
+                problems.append(op_)
+        report.check(not problems, 'C08-R3', key(t3.qname, 'block loop stride Nbr is tested to be positive'), t3.loc(l3),
+                     'the block loop uses a tag supplied value (%s) as range() step without testing it: an attribute block in which it is 0 (valid '
+                     'checksum) makes range() raise ValueError out of tag.ndef' % ', '.join(problems))
     else:
         report.fail('C08-R3', key(t3.qname, 'block loop'), t3.loc(), 'Type 3 block loop not found')
     # Type 4: read loop must leave when READ BINARY returned nothing
@@ -344,6 +352,9 @@ triage.add('C08', 'C08-R1', key('ValueError', 'raised in nfc.tag.tt4.Type4Tag.se
 triage.add('C08', 'C08-R1', key('ValueError', 'raised in nfc.tag.tt4.Type4Tag.send_apdu', "raise ValueError('unsupported max response length')"), APDU_REASON, APDU_ANCHORS)
 
 MUTANTS = [
+    ('tt3-read-stride-unbounded', 'nfc.tag.tt3', "nbr = min(attributes['nbr'], 15)", "nbr = attributes['nbr']", 'C08-R3'),
+    ('tt3-read-stride-second-operand-untested', 'nfc.tag.tt3', "nbr = min(attributes['nbr'], 15)", "nbr = min(attributes['nbr'], attributes['nmaxb'], 15)", 'C08-R3'),
+    ('tt3-write-stride-unbounded', 'nfc.tag.tt3', "nbw = min(attributes['nbw'], 13)", "nbw = min(attributes['nbw'], 130)", 'C08-R3'),
     ('tt2-read-tlv-unguarded', 'nfc.tag.tt2', """                try:
                     tlv = read_tlv(tag_memory, offset, skip_bytes)
                     tlv_t, tlv_l, tlv_v = tlv
